@@ -156,6 +156,10 @@ def r20_1(ctx):
     last = [i for i in chain if i.orelse and not (len(i.orelse) == 1 and isinstance(i.orelse[0], ast.If))]
     ok = len(last) == 1 and any(isinstance(x, ast.Raise) for x in last[0].orelse)
     ctx.check(ok, "Stage._sample: unknown grid rejected", detail="unknown grid name in sample", expected="final else: raise", found="", fi=f)
+    # 9c. a DAE must be square: as many algebraic equations as algebraic variables (otherwise equations are dropped or variables left free)
+    f = P.own_method("Stage", "_ode")
+    has_guard(ctx, f, lambda t, k: ("self.nz" in t and ("alg" in t)) and k in ("raise", "assert"), "Stage._ode: number of algebraic equations must match the number of algebraic variables",
+              "add_alg equations without (enough) algebraic variables are dropped by DirectCollocation; missing equations leave algebraic variables undetermined", "if alg.numel() != self.nz: raise")
     # 10. foreign symbols
     f = P.own_method("Stage", "_ode")
     has_guard(ctx, f, lambda t, k: t == "notret.has_free()" and k == "assert", "Stage._ode: symbols that do not belong to the stage are rejected", "foreign symbol in the dynamics", "assert not ret.has_free()")
